@@ -1,6 +1,6 @@
 CONSTANTS
   Images = {"i1","i2","i3"}
-  Names = {"a","b","endorsement"}
+  Names = {"a","q/a","endorsement"}
   Design = "code"
 SPECIFICATION Spec
 VIEW view
